@@ -109,7 +109,8 @@ class PersistentMixin(Module):
                 if getattr(pobj, 'persistent', False):
                     datatype = self.parameters[pname].datatype
                     # validate: the limits might have changed or the file might be damaged
-                    result[pname] = datatype.validate(datatype.import_value(value))
+                    # missing optional struct members are taken from the current (default) value
+                    result[pname] = datatype.validate(datatype.import_value(value), pobj.value)
             except Exception as e:
                 # ignore invalid persistent data (in case parameters have changed)
                 self.log.warning('can not restore %r to %r (%r)', pname, value, e)
